@@ -75,6 +75,27 @@ func TestExplore(t *testing.T) {
 		st.Nodes += len(tab.Nodes)
 		st.Edges += ne
 	}
+	// two gateways sharing one store (cross-node uniqueness)
+	for _, tn := range twoNodeSystems() {
+		d, mn := 5, 3000
+		if tier == "thorough" {
+			d, mn = 7, 30000
+		}
+		tab, panics, err := core.Explore(tn, core.ExploreOptions{MaxDepth: d, MaxNodes: mn, AdequacySample: 3, Seed: seed})
+		if err != nil {
+			t.Fatalf("explore %s: %v", tn.Name(), err)
+		}
+		st.Panics = append(st.Panics, panics...)
+		bundle.Systems = append(bundle.Systems, tab)
+		ne := 0
+		for _, es := range tab.Edges {
+			ne += len(es)
+		}
+		st.PerSystem[tn.Name()] = [3]int{len(tab.Nodes), ne, 0}
+		st.Systems++
+		st.Nodes += len(tab.Nodes)
+		st.Edges += ne
+	}
 	rng := rand.New(rand.NewSource(seed))
 	for _, a := range LargeCatalogue(bigSubs) {
 		sys := NewPoolSystem(a, bigSubs, nil)
@@ -184,6 +205,10 @@ func TestExplorePersist(t *testing.T) {
 	}
 }
 
+func twoNodeSystems() []*TwoNodeSystem {
+	return []*TwoNodeSystem{NewTwoNodeSystem(G4_29, "lease", 1, 3), NewTwoNodeSystem(G4_30, "session", 0, 3)}
+}
+
 func persistSystems(nsubs int) []*PersistSystem {
 	return []*PersistSystem{
 		NewPersistSystem(G4_29, "session", 0, nsubs),
@@ -199,6 +224,11 @@ func findSystem(name string, nsubs int) (core.System, bool) {
 	for _, ps := range persistSystems(nsubs) {
 		if ps.Name() == name && ps.NSubs == nsubs {
 			return ps, true
+		}
+	}
+	for _, tn := range twoNodeSystems() {
+		if tn.Name() == name {
+			return tn, true
 		}
 	}
 	if a, ok := FindAdapter(name, nsubs); ok {
